@@ -1,4 +1,5 @@
 import Casket.Proofs.TLSGroup
+import Casket.Proofs.TLSSetup
 import Casket.Generated.TLSDefaults
 /-
 C06 — TLS settings follow the SNI-matched site; no TLS/plaintext mixing.   (partial: crypto/tls)
@@ -346,7 +347,7 @@ theorem C06_handshake_model_verdict_ok (aesni : Bool) (raw : List Cfg) (sni : By
                   by_cases hv : min cmax b.maxV < max cmin b.minV
                   · rw [if_pos hv]
                   · rw [if_neg hv]
-                    by_cases hcbc : min cmax b.maxV < tls12 ∧ (!(b.ciphers.any fun x => cbcECDSA.contains x)) = true
+                    by_cases hcbc : (!usable (min cmax b.maxV) b.ciphers) = true
                     · rw [if_pos hcbc]
                     · rw [if_neg hcbc]
                       cases hw : wanted raw sni la with
@@ -484,6 +485,148 @@ theorem C06_clientauth_bypass_fails_witness :
     (match connect true sites [open_, star] [98, 46, 97, 46, 99, 111, 109] [47] with
       | (.cfg j _, .site i) => (j, i) | _ => (9, 9)) = (0, 1) ∧
     crossVerdict [open_, star] (connect true sites [open_, star] [98, 46, 97, 46, 99, 111, 109] [47]) ≠ "ok" := by
+  decide
+
+/-! ### The `tls` block: directive → Config (`setupTLS`, stream `c06.setup`; through the loader to a
+listener and a real handshake: stream `c06.listener`) -/
+
+/-- `protocols a b` yields min = a, max = b (and is accepted only if a ≤ b); `protocols a` yields
+min = max = a; further arguments are ignored. -/
+theorem C06_setup_protocols (c c' : Casket.TLSSetup.Raw) (args : List Bytes)
+    (h : Casket.TLSSetup.applyLine c Casket.TLSSetup.kProtocols args = .ok c') :
+    (∃ a v, args = [a] ∧ Casket.TLSSetup.lookup Casket.TLSSetup.protocolTable (lower a) = some v ∧
+        c'.minV = v ∧ c'.maxV = v) ∨
+    (∃ a b rest v w, args = a :: b :: rest ∧
+        Casket.TLSSetup.lookup Casket.TLSSetup.protocolTable (lower a) = some v ∧
+        Casket.TLSSetup.lookup Casket.TLSSetup.protocolTable (lower b) = some w ∧ v ≤ w ∧ c'.minV = v ∧ c'.maxV = w) := by
+  have hnf : Casket.TLSSetup.isFlag Casket.TLSSetup.kProtocols = false := by decide
+  cases args with
+  | nil => simp [Casket.TLSSetup.applyLine, hnf, Casket.TLSSetup.applyOther] at h
+  | cons a rest =>
+    simp only [Casket.TLSSetup.applyLine, hnf, Bool.false_eq_true, if_false, Casket.TLSSetup.applyOther, if_true] at h
+    cases rest with
+    | nil =>
+      simp only [] at h
+      cases hl : Casket.TLSSetup.lookup Casket.TLSSetup.protocolTable (lower a) with
+      | none => rw [hl] at h; simp at h
+      | some v =>
+        rw [hl] at h
+        simp only [Except.ok.injEq] at h
+        subst h
+        exact Or.inl ⟨a, v, rfl, hl, rfl, rfl⟩
+    | cons b rest' =>
+      simp only [] at h
+      cases hl : Casket.TLSSetup.lookup Casket.TLSSetup.protocolTable (lower a) with
+      | none => rw [hl] at h; simp at h
+      | some v =>
+        cases hl2 : Casket.TLSSetup.lookup Casket.TLSSetup.protocolTable (lower b) with
+        | none => rw [hl, hl2] at h; simp at h
+        | some w =>
+          rw [hl, hl2] at h
+          simp only [] at h
+          by_cases hgt : v > w
+          · simp [hgt] at h
+          · simp only [hgt, if_false, Except.ok.injEq] at h
+            subst h
+            exact Or.inr ⟨a, b, rest', v, w, rfl, hl, hl2, by omega, rfl, rfl⟩
+
+/-- Client-certificate modes as documented: `request` → RequestClientCert, `require` →
+RequireAnyClientCert (CA files optional), `verify_if_given <files…>` → VerifyClientCertIfGiven (at
+least one file), anything else → RequireAndVerifyClientCert with every argument a CA file. -/
+theorem C06_setup_clients_modes (m : Bytes) (rest : List Bytes) :
+    Casket.TLSSetup.clients (Casket.TLSSetup.kRequest :: rest) = .ok (1, rest) ∧
+    Casket.TLSSetup.clients (Casket.TLSSetup.kRequire :: rest) = .ok (2, rest) ∧
+    (rest ≠ [] → Casket.TLSSetup.clients (Casket.TLSSetup.kVerifyIfGiven :: rest) = .ok (3, rest)) ∧
+    Casket.TLSSetup.clients [Casket.TLSSetup.kVerifyIfGiven] = .error .argCount ∧
+    (m ≠ Casket.TLSSetup.kRequest → m ≠ Casket.TLSSetup.kRequire → m ≠ Casket.TLSSetup.kVerifyIfGiven →
+      Casket.TLSSetup.clients (m :: rest) = .ok (4, m :: rest)) := by
+  have e1 : ¬ Casket.TLSSetup.kRequire = Casket.TLSSetup.kRequest := by decide
+  have e2 : ¬ Casket.TLSSetup.kVerifyIfGiven = Casket.TLSSetup.kRequest := by decide
+  have e3 : ¬ Casket.TLSSetup.kVerifyIfGiven = Casket.TLSSetup.kRequire := by decide
+  refine ⟨by simp [Casket.TLSSetup.clients], by simp [Casket.TLSSetup.clients, e1], ?_,
+    by simp [Casket.TLSSetup.clients, e2, e3], ?_⟩
+  · intro hne
+    cases rest with
+    | nil => exact absurd rfl hne
+    | cons a as => simp [Casket.TLSSetup.clients, e2, e3]
+  · intro h1 h2 h3
+    simp [Casket.TLSSetup.clients, h1, h2, h3]
+
+/-- The block judge, total over plain blocks and all of the model's answers: the last `protocols`
+line decides the range and a block silent about protocols gets TLS 1.2 … TLS 1.3; the last
+`clients` line decides the client-certificate policy and a silent block asks for none; defaults
+for ciphers and curves apply exactly where the block is silent; TLS_FALLBACK_SCSV is first and the
+server's cipher preference is on. -/
+theorem C06_setup_model_verdict_ok (aesni : Bool) (block : List Casket.TLSSetup.Line) :
+    Casket.TLSSetupSpec.verdict aesni block (Casket.TLSSetup.setupTLS aesni block) = "ok" := by
+  unfold Casket.TLSSetupSpec.verdict
+  by_cases hp : Casket.TLSSetupSpec.plain block = true
+  · simp only [hp, Bool.not_true, Bool.false_eq_true, if_false]
+    unfold Casket.TLSSetup.setupTLS
+    cases ha : Casket.TLSSetup.applyLines {} block with
+    | error e => rfl
+    | ok r =>
+      simp only []
+      obtain ⟨h1, h2, h3, h4⟩ := Casket.TLSSetup.applyLines_effect hp ha
+      have hproto : ((Casket.TLSSetup.finalize aesni r).cfg.minV, (Casket.TLSSetup.finalize aesni r).cfg.maxV)
+          = (Casket.TLSSetupSpec.lastSome Casket.TLSSetupSpec.protoOf block).getD (tls12, tls13) := by
+        simp only [Casket.TLSSetup.finalize, setDefaults]
+        cases hs : Casket.TLSSetupSpec.lastSome Casket.TLSSetupSpec.protoOf block with
+        | none =>
+          rw [hs] at h1
+          simp only [Option.getD_none, Prod.mk.injEq] at h1
+          simp [h1.1, h1.2]
+        | some vw =>
+          obtain ⟨v, w⟩ := vw
+          rw [hs] at h1
+          simp only [Option.getD_some, Prod.mk.injEq] at h1
+          obtain ⟨hv, hw⟩ := Casket.TLSSetup.lastSome_proto_ne_zero hs
+          simp [h1.1, h1.2, hv, hw]
+      have hclients : ((Casket.TLSSetup.finalize aesni r).cfg.clientAuth, (Casket.TLSSetup.finalize aesni r).clientCerts)
+          = (Casket.TLSSetupSpec.lastSome Casket.TLSSetupSpec.clientsOf block).getD (0, []) := by
+        simp only [Casket.TLSSetup.finalize, setDefaults]
+        exact h2
+      have hhead : (Casket.TLSSetup.finalize aesni r).cfg.ciphers.head? = some scsv := by
+        simp [Casket.TLSSetup.finalize, setDefaults]
+      have hciph : Casket.TLSSetupSpec.mentions Casket.TLSSetup.kCiphers block = false →
+          (Casket.TLSSetup.finalize aesni r).cfg.ciphers = scsv :: preferredDefaultCiphers aesni := by
+        intro hm
+        have := h3 hm
+        simp only [Casket.TLSSetup.finalize, setDefaults, this]
+        rfl
+      have hcurv : Casket.TLSSetupSpec.mentions Casket.TLSSetup.kCurves block = false →
+          (Casket.TLSSetup.finalize aesni r).cfg.curves = defaultCurves := by
+        intro hm
+        have := h4 hm
+        simp only [Casket.TLSSetup.finalize, setDefaults, this]
+        rfl
+      have hpref : (Casket.TLSSetup.finalize aesni r).cfg.preferServer = true := rfl
+      simp only [hproto, hclients, hhead, hpref, bne_self_eq_false, Bool.false_eq_true, if_false, Bool.not_true]
+      by_cases hm1 : Casket.TLSSetupSpec.mentions Casket.TLSSetup.kCiphers block = true
+      · by_cases hm2 : Casket.TLSSetupSpec.mentions Casket.TLSSetup.kCurves block = true
+        · simp [hm1, hm2]
+        · have hm2' : Casket.TLSSetupSpec.mentions Casket.TLSSetup.kCurves block = false := by simpa using hm2
+          simp [hm1, hm2', hcurv hm2']
+      · have hm1' : Casket.TLSSetupSpec.mentions Casket.TLSSetup.kCiphers block = false := by simpa using hm1
+        by_cases hm2 : Casket.TLSSetupSpec.mentions Casket.TLSSetup.kCurves block = true
+        · simp [hm1', hm2, hciph hm1']
+        · have hm2' : Casket.TLSSetupSpec.mentions Casket.TLSSetup.kCurves block = false := by simpa using hm2
+          simp [hm1', hm2', hciph hm1', hcurv hm2']
+  · simp [hp]
+
+/-- The name tables of the block model are the ones in the source (regenerated on every run):
+protocol, cipher and curve names with their wire numbers, and the four ClientAuth modes. -/
+theorem C06_setup_tables_regenerated :
+    Casket.Generated.supportedProtocols.all (fun p =>
+      Casket.TLSSetup.lookup Casket.TLSSetup.protocolTable (p.1.toList.map Char.toNat) == some p.2) = true ∧
+    Casket.Generated.supportedProtocols.length = Casket.TLSSetup.protocolTable.length ∧
+    Casket.Generated.supportedCiphers.all (fun p =>
+      Casket.TLSSetup.lookup Casket.TLSSetup.cipherTable (p.1.toList.map Char.toNat) == some p.2) = true ∧
+    Casket.Generated.supportedCiphers.length = Casket.TLSSetup.cipherTable.length ∧
+    Casket.Generated.supportedCurves.all (fun p =>
+      Casket.TLSSetup.lookup Casket.TLSSetup.curveTable (p.1.toList.map Char.toNat) == some p.2) = true ∧
+    Casket.Generated.supportedCurves.length = Casket.TLSSetup.curveTable.length ∧
+    Casket.Generated.clientAuthModes = [1, 2, 3, 4] := by
   decide
 
 /-- The defaults of the model are the ones in the source (regenerated on every run). -/
